@@ -3,129 +3,112 @@
 (* C16 Fill-value semantics: for ALL variable lengths and process counts the per-rank shares tile the *)
 (* variable exactly; the fill plan at enddef addresses exactly the new fill-mode variables (and their slices *)
 (* of the existing records), each element once; no byte outside those extents changes. *)
+From Coq Require Import ZArith List.
 From Pnc Require Import Proofs_Fill.
 Set Printing Width 100.
+Set Printing Depth 100000.
 
 Theorem C16_fill_share_partition :
-  forall nprocs var_len : BinNums.Z,
-         BinInt.Z.le (BinNums.Zpos BinNums.xH) nprocs ->
-         BinInt.Z.le BinNums.Z0 var_len ->
-         (forall r : BinNums.Z, BinInt.Z.le BinNums.Z0 (snd (Fill.fill_share nprocs r var_len))) /\
-         fst (Fill.fill_share nprocs BinNums.Z0 var_len) = BinNums.Z0 /\
-         (forall r : BinNums.Z,
-          BinInt.Z.le BinNums.Z0 r /\ BinInt.Z.lt r (BinInt.Z.sub nprocs (BinNums.Zpos BinNums.xH)) ->
-          fst (Fill.fill_share nprocs (BinInt.Z.add r (BinNums.Zpos BinNums.xH)) var_len) =
-          BinInt.Z.add (fst (Fill.fill_share nprocs r var_len))
-            (snd (Fill.fill_share nprocs r var_len))) /\
-         BinInt.Z.add
-           (fst (Fill.fill_share nprocs (BinInt.Z.sub nprocs (BinNums.Zpos BinNums.xH)) var_len))
-           (snd (Fill.fill_share nprocs (BinInt.Z.sub nprocs (BinNums.Zpos BinNums.xH)) var_len)) =
-         var_len.
+  forall nprocs var_len : Z,
+         (1 <= nprocs)%Z ->
+         (0 <= var_len)%Z ->
+         (forall r : Z, (0 <= snd (Fill.fill_share nprocs r var_len))%Z) /\
+         fst (Fill.fill_share nprocs 0 var_len) = 0%Z /\
+         (forall r : Z,
+          (0 <= r < nprocs - 1)%Z ->
+          fst (Fill.fill_share nprocs (r + 1) var_len) =
+          (fst (Fill.fill_share nprocs r var_len) + snd (Fill.fill_share nprocs r var_len))%Z) /\
+         (fst (Fill.fill_share nprocs (nprocs - 1) var_len) +
+          snd (Fill.fill_share nprocs (nprocs - 1) var_len))%Z = var_len.
 Proof. exact @fill_share_partition. Qed.
 Print Assumptions C16_fill_share_partition.
 
 Theorem C16_fill_share_exact_cover :
-  forall nprocs var_len : BinNums.Z,
-         BinInt.Z.le (BinNums.Zpos BinNums.xH) nprocs ->
-         BinInt.Z.le BinNums.Z0 var_len ->
-         (forall r : BinNums.Z,
-          BinInt.Z.le BinNums.Z0 r /\ BinInt.Z.lt r nprocs ->
-          BinInt.Z.le BinNums.Z0 (fst (Fill.fill_share nprocs r var_len)) /\
-          BinInt.Z.le
-            (BinInt.Z.add (fst (Fill.fill_share nprocs r var_len))
-               (snd (Fill.fill_share nprocs r var_len))) var_len) /\
-         (forall e : BinNums.Z,
-          BinInt.Z.le BinNums.Z0 e /\ BinInt.Z.lt e var_len ->
-          exists r : BinNums.Z,
-            ((BinInt.Z.le BinNums.Z0 r /\ BinInt.Z.lt r nprocs) /\
-             BinInt.Z.le (fst (Fill.fill_share nprocs r var_len)) e /\
-             BinInt.Z.lt e
-               (BinInt.Z.add (fst (Fill.fill_share nprocs r var_len))
-                  (snd (Fill.fill_share nprocs r var_len)))) /\
-            (forall r' : BinNums.Z,
-             BinInt.Z.le BinNums.Z0 r' /\ BinInt.Z.lt r' nprocs ->
-             BinInt.Z.le (fst (Fill.fill_share nprocs r' var_len)) e /\
-             BinInt.Z.lt e
-               (BinInt.Z.add (fst (Fill.fill_share nprocs r' var_len))
-                  (snd (Fill.fill_share nprocs r' var_len))) -> r' = r)).
+  forall nprocs var_len : Z,
+         (1 <= nprocs)%Z ->
+         (0 <= var_len)%Z ->
+         (forall r : Z,
+          (0 <= r < nprocs)%Z ->
+          (0 <= fst (Fill.fill_share nprocs r var_len))%Z /\
+          (fst (Fill.fill_share nprocs r var_len) + snd (Fill.fill_share nprocs r var_len) <= var_len)%Z) /\
+         (forall e : Z,
+          (0 <= e < var_len)%Z ->
+          exists r : Z,
+            ((0 <= r < nprocs)%Z /\
+             (fst (Fill.fill_share nprocs r var_len) <= e <
+              fst (Fill.fill_share nprocs r var_len) + snd (Fill.fill_share nprocs r var_len))%Z) /\
+            (forall r' : Z,
+             (0 <= r' < nprocs)%Z ->
+             (fst (Fill.fill_share nprocs r' var_len) <= e <
+              fst (Fill.fill_share nprocs r' var_len) + snd (Fill.fill_share nprocs r' var_len))%Z ->
+             r' = r)).
 Proof. exact @fill_share_exact_cover. Qed.
 Print Assumptions C16_fill_share_exact_cover.
 
 Theorem C16_fill_plan_only_new_fillmode :
-  forall (h : Header.hdr) (lay : Header.layout) (sv nrecs np r off c : BinNums.Z)
-           (v : Header.var),
-         List.In (off, c, v) (Fill.fill_plan h lay sv nrecs np r) ->
-         List.In v (Base.zskipn sv (Header.h_vars h)) /\ Header.v_nofill v = false.
+  forall (h : Header.hdr) (lay : Header.layout) (sv nrecs np r off c : Z) (v : Header.var),
+         In (off, c, v) (Fill.fill_plan h lay sv nrecs np r) ->
+         In v (Base.zskipn sv (Header.h_vars h)) /\ Header.v_nofill v = false.
 Proof. exact @fill_plan_only_new_fillmode. Qed.
 Print Assumptions C16_fill_plan_only_new_fillmode.
 
 Theorem C16_fill_plan_fixed_cover :
-  forall (h : Header.hdr) (lay : Header.layout) (sv nrecs np : BinNums.Z) 
-           (v : Header.var) (e : BinNums.Z),
-         BinInt.Z.le (BinNums.Zpos BinNums.xH) np ->
-         List.In v (Base.zskipn sv (Header.h_vars h)) ->
+  forall (h : Header.hdr) (lay : Header.layout) (sv nrecs np : Z) (v : Header.var) (e : Z),
+         (1 <= np)%Z ->
+         In v (Base.zskipn sv (Header.h_vars h)) ->
          Header.v_nofill v = false ->
          Header.is_recvar (Header.h_dims h) v = false ->
-         BinInt.Z.lt BinNums.Z0 (vxsz v) ->
-         BinInt.Z.le BinNums.Z0 e /\ BinInt.Z.lt e (nelems h v) ->
-         exists r st c : BinNums.Z,
-           ((BinInt.Z.le BinNums.Z0 r /\ BinInt.Z.lt r np) /\
-            List.In (BinInt.Z.add (Header.v_begin v) (BinInt.Z.mul st (vxsz v)), c, v)
-              (Fill.fill_plan h lay sv nrecs np r) /\
-            BinInt.Z.le st e /\ BinInt.Z.lt e (BinInt.Z.add st c)) /\
-           (forall r' st' c' : BinNums.Z,
-            BinInt.Z.le BinNums.Z0 r' /\ BinInt.Z.lt r' np ->
-            List.In (BinInt.Z.add (Header.v_begin v) (BinInt.Z.mul st' (vxsz v)), c', v)
-              (Fill.fill_plan h lay sv nrecs np r') ->
-            BinInt.Z.le st' e /\ BinInt.Z.lt e (BinInt.Z.add st' c') -> r' = r /\ st' = st /\ c' = c).
+         (0 < vxsz v)%Z ->
+         (0 <= e < nelems h v)%Z ->
+         exists r st c : Z,
+           ((0 <= r < np)%Z /\
+            In ((Header.v_begin v + st * vxsz v)%Z, c, v) (Fill.fill_plan h lay sv nrecs np r) /\
+            (st <= e < st + c)%Z) /\
+           (forall r' st' c' : Z,
+            (0 <= r' < np)%Z ->
+            In ((Header.v_begin v + st' * vxsz v)%Z, c', v) (Fill.fill_plan h lay sv nrecs np r') ->
+            (st' <= e < st' + c')%Z -> r' = r /\ st' = st /\ c' = c).
 Proof. exact @fill_plan_fixed_cover. Qed.
 Print Assumptions C16_fill_plan_fixed_cover.
 
 Theorem C16_fill_plan_rec_cover :
-  forall (h : Header.hdr) (lay : Header.layout) (sv nrecs np : BinNums.Z) 
-           (v : Header.var) (recno e : BinNums.Z),
-         BinInt.Z.le (BinNums.Zpos BinNums.xH) np ->
-         List.In v (Base.zskipn sv (Header.h_vars h)) ->
+  forall (h : Header.hdr) (lay : Header.layout) (sv nrecs np : Z) 
+           (v : Header.var) (recno e : Z),
+         (1 <= np)%Z ->
+         In v (Base.zskipn sv (Header.h_vars h)) ->
          Header.v_nofill v = false ->
          Header.is_recvar (Header.h_dims h) v = true ->
-         BinInt.Z.lt BinNums.Z0 (vxsz v) ->
-         BinInt.Z.le (BinInt.Z.mul (nelems h v) (vxsz v)) (Header.l_recsize lay) ->
-         BinInt.Z.le BinNums.Z0 recno /\ BinInt.Z.lt recno nrecs ->
-         BinInt.Z.le BinNums.Z0 e /\ BinInt.Z.lt e (nelems h v) ->
-         exists r st c : BinNums.Z,
-           ((BinInt.Z.le BinNums.Z0 r /\ BinInt.Z.lt r np) /\
-            List.In
-              (BinInt.Z.add
-                 (BinInt.Z.add (Header.v_begin v) (BinInt.Z.mul (Header.l_recsize lay) recno))
-                 (BinInt.Z.mul st (vxsz v)), c, v) (Fill.fill_plan h lay sv nrecs np r) /\
-            BinInt.Z.le st e /\ BinInt.Z.lt e (BinInt.Z.add st c)) /\
-           (forall r' st' c' : BinNums.Z,
-            BinInt.Z.le BinNums.Z0 r' /\ BinInt.Z.lt r' np ->
-            List.In
-              (BinInt.Z.add
-                 (BinInt.Z.add (Header.v_begin v) (BinInt.Z.mul (Header.l_recsize lay) recno))
-                 (BinInt.Z.mul st' (vxsz v)), c', v) (Fill.fill_plan h lay sv nrecs np r') ->
-            BinInt.Z.le st' e /\ BinInt.Z.lt e (BinInt.Z.add st' c') -> r' = r /\ st' = st /\ c' = c).
+         (0 < vxsz v)%Z ->
+         (nelems h v * vxsz v <= Header.l_recsize lay)%Z ->
+         (0 <= recno < nrecs)%Z ->
+         (0 <= e < nelems h v)%Z ->
+         exists r st c : Z,
+           ((0 <= r < np)%Z /\
+            In ((Header.v_begin v + Header.l_recsize lay * recno + st * vxsz v)%Z, c, v)
+              (Fill.fill_plan h lay sv nrecs np r) /\ (st <= e < st + c)%Z) /\
+           (forall r' st' c' : Z,
+            (0 <= r' < np)%Z ->
+            In ((Header.v_begin v + Header.l_recsize lay * recno + st' * vxsz v)%Z, c', v)
+              (Fill.fill_plan h lay sv nrecs np r') ->
+            (st' <= e < st' + c')%Z -> r' = r /\ st' = st /\ c' = c).
 Proof. exact @fill_plan_rec_cover. Qed.
 Print Assumptions C16_fill_plan_rec_cover.
 
 Theorem C16_do_fill_frame :
-  forall (d : Disk.disk) (h : Header.hdr) (lay : Header.layout) (sv nrecs np x : BinNums.Z),
-         (forall (r off c : BinNums.Z) (v : Header.var),
-          BinInt.Z.le BinNums.Z0 r /\ BinInt.Z.lt r np ->
-          List.In (off, c, v) (Fill.fill_plan h lay sv nrecs np r) ->
-          ~
-          (BinInt.Z.le off x /\
-           BinInt.Z.lt x (BinInt.Z.add off (BinInt.Z.mul c (Base.Zlen (Fill.var_fill_bytes v)))))) ->
+  forall (d : Disk.disk) (h : Header.hdr) (lay : Header.layout) (sv nrecs np x : Z),
+         (forall (r off c : Z) (v : Header.var),
+          (0 <= r < np)%Z ->
+          In (off, c, v) (Fill.fill_plan h lay sv nrecs np r) ->
+          ~ (off <= x < off + c * Base.Zlen (Fill.var_fill_bytes v))%Z) ->
          Disk.dk_get (Fill.do_fill d h lay sv nrecs np) x = Disk.dk_get d x.
 Proof. exact @do_fill_frame. Qed.
 Print Assumptions C16_do_fill_frame.
 
 Theorem C16_do_fill_frame_extent :
-  forall (d : Disk.disk) (h : Header.hdr) (lay : Header.layout) (sv nrecs np x : BinNums.Z),
-         BinInt.Z.le (BinNums.Zpos BinNums.xH) np ->
+  forall (d : Disk.disk) (h : Header.hdr) (lay : Header.layout) (sv nrecs np x : Z),
+         (1 <= np)%Z ->
          (forall v : Header.var,
-          List.In v (Base.zskipn sv (Header.h_vars h)) ->
+          In v (Base.zskipn sv (Header.h_vars h)) ->
           Header.v_nofill v = false ->
           vxsz v = Base.Zlen (Fill.var_fill_bytes v) /\ ~ in_fill_extent h lay nrecs v x) ->
          Disk.dk_get (Fill.do_fill d h lay sv nrecs np) x = Disk.dk_get d x.
@@ -133,24 +116,22 @@ Proof. exact @do_fill_frame_extent. Qed.
 Print Assumptions C16_do_fill_frame_extent.
 
 Theorem C16_do_fill_writes_fill :
-  forall (d : Disk.disk) (h : Header.hdr) (lay : Header.layout) (sv nrecs np : BinNums.Z)
-           (v : Header.var) (e : BinNums.Z),
-         BinInt.Z.le (BinNums.Zpos BinNums.xH) np ->
-         List.In v (Base.zskipn sv (Header.h_vars h)) ->
+  forall (d : Disk.disk) (h : Header.hdr) (lay : Header.layout) (sv nrecs np : Z)
+           (v : Header.var) (e : Z),
+         (1 <= np)%Z ->
+         In v (Base.zskipn sv (Header.h_vars h)) ->
          Header.v_nofill v = false ->
          Header.is_recvar (Header.h_dims h) v = false ->
-         BinInt.Z.lt BinNums.Z0 (vxsz v) ->
+         (0 < vxsz v)%Z ->
          Base.Zlen (Fill.var_fill_bytes v) = vxsz v ->
-         BinInt.Z.le BinNums.Z0 e /\ BinInt.Z.lt e (nelems h v) ->
-         (forall (r off c : BinNums.Z) (v' : Header.var),
-          BinInt.Z.le BinNums.Z0 r /\ BinInt.Z.lt r np ->
-          List.In (off, c, v') (Fill.fill_plan h lay sv nrecs np r) ->
+         (0 <= e < nelems h v)%Z ->
+         (forall (r off c : Z) (v' : Header.var),
+          (0 <= r < np)%Z ->
+          In (off, c, v') (Fill.fill_plan h lay sv nrecs np r) ->
           v' = v \/
-          BinInt.Z.le (BinInt.Z.add off (BinInt.Z.mul c (Base.Zlen (Fill.var_fill_bytes v'))))
-            (Header.v_begin v) \/
-          BinInt.Z.le (BinInt.Z.add (Header.v_begin v) (BinInt.Z.mul (nelems h v) (vxsz v))) off) ->
-         Disk.dk_read (Fill.do_fill d h lay sv nrecs np)
-           (BinInt.Z.add (Header.v_begin v) (BinInt.Z.mul e (vxsz v))) (vxsz v) =
+          (off + c * Base.Zlen (Fill.var_fill_bytes v') <= Header.v_begin v)%Z \/
+          (Header.v_begin v + nelems h v * vxsz v <= off)%Z) ->
+         Disk.dk_read (Fill.do_fill d h lay sv nrecs np) (Header.v_begin v + e * vxsz v) (vxsz v) =
          Fill.var_fill_bytes v.
 Proof. exact @do_fill_writes_fill. Qed.
 Print Assumptions C16_do_fill_writes_fill.
